@@ -1227,3 +1227,186 @@ Section Final.
           rewrite firstn_all2 in HE; [|lia]. rewrite firstn_all2; [auto|lia].
   Qed.
 End Final.
+
+(* ================================================================== *)
+(* I. inlining of tag definitions preserves the meaning               *)
+(* ================================================================== *)
+Section InlineProofs.
+  Variable atom tagname : Type.
+  Variable tags : tagname -> option (tagdetails atom tagname).
+  Variable invert : dnf atom tagname -> dnf atom tagname.
+  (* the stream under consideration *)
+  Variable eval_atom : atom -> bool.
+  Variable sid : N.
+
+  Notation cond := (cond atom tagname).
+  Notation conj := (conj atom tagname).
+  Notation dnf := (dnf atom tagname).
+
+  (* the tag filter f of buildSearchObjects: Accept against the two bitmaps *)
+  Definition accepts (a : accept) (unc m : bool) : bool :=
+    if unc then (if m then acc_um a else acc_uf a) else (if m then acc_m a else acc_f a).
+
+  Definition eval_cond (c : cond) : bool :=
+    match c with
+    | CAtom x => eval_atom x
+    | CTag t a =>
+        match tags t with
+        | Some td => accepts a (td_uncertain td sid) (td_matches td sid)
+        | None => false                      (* "tag does not exist" *)
+        end
+    end.
+  Definition eval_conj (c : conj) : bool := forallb eval_cond c.
+  Definition eval_dnf (d : dnf) : bool := existsb eval_conj d.
+
+  (* intended meaning: a decided stream is judged by its bit, an undecided one by the definition
+     ([truth] = meaning of a definition, one nesting level deeper) *)
+  Section Meaning.
+    Variable truth : dnf -> bool.
+    Definition sem_cond_with (c : cond) : bool :=
+      match c with
+      | CAtom x => eval_atom x
+      | CTag t a =>
+          match tags t with
+          | None => false
+          | Some td =>
+              if td_uncertain td sid then
+                (if Bool.eqb (acc_um a) (acc_uf a) then acc_um a
+                 else if truth (td_conditions td) then acc_um a else acc_uf a)
+              else if td_matches td sid then acc_m a else acc_f a
+          end
+      end.
+    Definition sem_conj_with (c : conj) : bool := forallb sem_cond_with c.
+    Definition sem_dnf_with (d : dnf) : bool := existsb sem_conj_with d.
+  End Meaning.
+
+  Fixpoint sem_dnf (fuel : nat) : dnf -> bool :=
+    match fuel with
+    | O => sem_dnf_with (fun _ => false)
+    | S fuel' => sem_dnf_with (sem_dnf fuel')
+    end.
+
+  (* ConditionsSet.invert negates (C03); the uncertain bitmap is consistent with IsZero *)
+  Hypothesis Hinvert : forall d, eval_dnf (invert d) = negb (eval_dnf d).
+  Hypothesis Hany : forall t td, tags t = Some td -> td_uncertain td sid = true -> td_any_uncertain td = true.
+
+  Lemma eval_dnf_app : forall d1 d2, eval_dnf (d1 ++ d2) = eval_dnf d1 || eval_dnf d2.
+  Proof. intros. unfold eval_dnf. apply existsb_app. Qed.
+
+  Lemma eval_dnf_map_app : forall (x : conj) d,
+    eval_dnf (map (fun c => c ++ x) d) = eval_dnf d && eval_conj x.
+  Proof.
+    induction d as [|c d IH]; simpl; auto.
+    unfold eval_dnf in *. simpl. rewrite IH. unfold eval_conj at 1. rewrite forallb_app.
+    fold (eval_conj c). fold (eval_conj x). destruct (eval_conj c), (eval_conj x); simpl; auto.
+    destruct (existsb eval_conj d); auto.
+  Qed.
+
+  Lemma eval_dnf_cons : forall c d, eval_dnf (c :: d) = eval_conj c || eval_dnf d.
+  Proof. reflexivity. Qed.
+  Lemma eval_conj_cons : forall y c, eval_conj (y :: c) = eval_cond y && eval_conj c.
+  Proof. reflexivity. Qed.
+
+  Lemma eval_conj_single : forall y, eval_conj [y] = eval_cond y.
+  Proof. intros. unfold eval_conj. simpl. apply andb_true_r. Qed.
+  Lemma sem_conj_cons : forall truth y c,
+    sem_conj_with truth (y :: c) = sem_cond_with truth y && sem_conj_with truth c.
+  Proof. reflexivity. Qed.
+
+  Lemma eval_dnf_flat : forall (y : cond) cs_new tcs,
+    eval_dnf (flat_map (fun tc => map (fun c => c ++ y :: tc) cs_new) tcs) =
+    eval_dnf cs_new && eval_cond y && eval_dnf tcs.
+  Proof.
+    induction tcs as [|tc tcs IH].
+    - simpl. rewrite andb_false_r. auto.
+    - change (flat_map (fun tc0 => map (fun c => c ++ y :: tc0) cs_new) (tc :: tcs))
+        with (map (fun c => c ++ y :: tc) cs_new ++ flat_map (fun tc0 => map (fun c => c ++ y :: tc0) cs_new) tcs).
+      rewrite eval_dnf_app, IH, (eval_dnf_map_app (y :: tc)), eval_dnf_cons, eval_conj_cons.
+      destruct (eval_dnf cs_new), (eval_cond y), (eval_conj tc), (eval_dnf tcs); auto.
+  Qed.
+
+  Section OneLevelProofs.
+    Variable rec : dnf -> option dnf.
+    Variable truth : dnf -> bool.
+    Hypothesis Hrec : forall d d', rec d = Some d' -> eval_dnf d' = truth d.
+
+    Lemma keep_ok : forall t a, 
+      (negb (acc_um a || acc_uf a) || (acc_um a && acc_uf a) = true \/ tags t = None \/
+       exists td, tags t = Some td /\ td_any_uncertain td = false) ->
+      eval_cond (CTag t a) = sem_cond_with truth (CTag t a).
+    Proof.
+      intros t a H. simpl. destruct (tags t) as [td|] eqn:Et; auto.
+      destruct (td_uncertain td sid) eqn:Eu; simpl; auto.
+      destruct H as [H|[H|(td' & E & H)]]; try discriminate.
+      - destruct (acc_um a), (acc_uf a); simpl in *; try discriminate; destruct (td_matches td sid); auto.
+      - inversion E; subst. rewrite (Hany Et Eu) in H. discriminate.
+    Qed.
+
+    Lemma inline_conj_ok : forall cs cs_new d',
+      inline_conj_with tags invert rec cs cs_new = Some d' ->
+      eval_dnf d' = eval_dnf cs_new && sem_conj_with truth cs.
+    Proof.
+      induction cs as [|c cs IH]; intros cs_new d' H; simpl in H.
+      - inversion H; subst. simpl. rewrite andb_true_r. auto.
+      - assert (Hkeep : forall t a, c = CTag t a ->
+                  inline_conj_with tags invert rec cs (map (fun c0 => c0 ++ [CTag t a]) cs_new) = Some d' ->
+                  eval_cond (CTag t a) = sem_cond_with truth (CTag t a) ->
+                  eval_dnf d' = eval_dnf cs_new && sem_conj_with truth (c :: cs)).
+        { intros t a -> H1 H2.
+          rewrite (IH _ _ H1), eval_dnf_map_app, eval_conj_single, H2, sem_conj_cons, andb_assoc. auto. }
+        destruct c as [x|t a].
+        + rewrite (IH _ _ H), eval_dnf_map_app, eval_conj_single, sem_conj_cons, andb_assoc. auto.
+        + destruct (negb (acc_um a || acc_uf a) || (acc_um a && acc_uf a)) eqn:E1.
+          { apply (Hkeep t a); auto. apply keep_ok. auto. }
+          destruct (tags t) as [td|] eqn:Et.
+          2:{ apply (Hkeep t a); auto. apply keep_ok. auto. }
+          destruct (negb (td_any_uncertain td)) eqn:E2.
+          { apply (Hkeep t a); auto. apply keep_ok. right. right. exists td. split; auto.
+            destruct (td_any_uncertain td); auto; discriminate. }
+          destruct (rec (td_conditions td)) as [tcs|] eqn:Er; [|discriminate].
+          rewrite (IH _ _ H). unfold inline_step.
+          rewrite eval_dnf_app, eval_dnf_map_app, eval_dnf_flat, eval_conj_single, sem_conj_cons.
+          assert (Ht : eval_dnf (if acc_um a then tcs else invert tcs) =
+                       if acc_um a then truth (td_conditions td) else negb (truth (td_conditions td))).
+          { destruct (acc_um a); [|rewrite Hinvert]; rewrite (Hrec Er); auto. }
+          rewrite Ht. simpl. rewrite Et. unfold accepts. simpl.
+          destruct (acc_um a) eqn:Eum, (acc_uf a) eqn:Euf; simpl in E1; try discriminate; simpl;
+            destruct (td_uncertain td sid), (td_matches td sid), (truth (td_conditions td)),
+                     (eval_dnf cs_new), (acc_m a), (acc_f a), (sem_conj_with truth cs); auto.
+    Qed.
+
+    Lemma inline_dnf_with_ok : forall d d',
+      inline_dnf_with tags invert rec d = Some d' -> eval_dnf d' = sem_dnf_with truth d.
+    Proof.
+      induction d as [|c d IH]; intros d' H; simpl in H.
+      - inversion H; auto.
+      - destruct (inline_conj_with tags invert rec c [[]]) as [x|] eqn:E1; [|discriminate].
+        destruct (inline_dnf_with tags invert rec d) as [y|] eqn:E2; [|discriminate].
+        inversion H; subst. rewrite eval_dnf_app, (IH _ eq_refl), (inline_conj_ok _ _ E1).
+        unfold sem_dnf_with. simpl. auto.
+    Qed.
+  End OneLevelProofs.
+
+  (* InlineTagFilters: whenever the inlining succeeds (enough fuel for the nesting of the tag
+     definitions), evaluating the inlined conditions against the bitmaps gives the intended meaning *)
+  Theorem inline_preserves : forall fuel d d',
+    inline_dnf tags invert fuel d = Some d' -> eval_dnf d' = sem_dnf fuel d.
+  Proof.
+    induction fuel as [|fuel IH]; intros d d' H; simpl in *.
+    - eapply inline_dnf_with_ok; eauto. intros; discriminate.
+    - eapply inline_dnf_with_ok; eauto.
+  Qed.
+
+  (* with every decided bit correct, `tag:t` means the definition of t, decided or not *)
+  Definition tag_plain : accept := mkAccept true false true false.
+  Theorem tag_means_definition : forall fuel t td,
+    tags t = Some td ->
+    (td_uncertain td sid = false -> td_matches td sid = sem_dnf fuel (td_conditions td)) ->
+    sem_cond_with (sem_dnf fuel) (CTag t tag_plain) = sem_dnf fuel (td_conditions td).
+  Proof.
+    intros fuel t td Et Hbit. simpl. rewrite Et.
+    destruct (td_uncertain td sid); simpl.
+    - destruct (sem_dnf fuel (td_conditions td)); auto.
+    - rewrite <- Hbit; auto. destruct (td_matches td sid); auto.
+  Qed.
+End InlineProofs.
